@@ -32,12 +32,32 @@ class FileDomain(small.SmallDomain):
         self.opens = []
 
     def on_stmt(self, node, state):
-        if node.kind == 'leave' and node.info.get('mode') == 'test' and node.info['callee'].func is self.size_test:
-            above = node.info['what'].startswith('true-from')
-            return state.with_extra(size_checked='above' if above else 'within')
-        if node.kind == 'leave' and node.info.get('mode') == 'value' and node.info['callee'].func is self.size_test:
+        if node.kind == 'leave' and node.info.get('mode') == 'value' and node.info['callee'].func is self.size_test and \
+                state.extra.get('size_checked') is None:
             return state.with_extra(size_checked='value')
         return state
+
+    def t_branch(self, node, state):
+        outs = small.SmallDomain.t_branch(self, node, state)
+        test = node.info.get('test')
+        if test is None or not isinstance(test, ast.Compare) or len(test.ops) != 1:
+            return outs
+        limit_sides = [self_attr(x) == 'intercepted_size_limit' for x in (test.left, test.comparators[0])]
+        if not any(limit_sides):
+            return outs
+        op = test.ops[0]
+        res_ = []
+        for lab, st in outs:
+            verdict = None
+            if isinstance(op, (ast.Is, ast.IsNot)) and isinstance(test.comparators[0], ast.Constant) and test.comparators[0].value is None:
+                is_none = (lab == 'true') == isinstance(op, ast.Is)
+                verdict = 'within' if is_none else None          # no limit configured: everything is within
+            elif isinstance(op, (ast.Gt, ast.GtE, ast.Lt, ast.LtE)):
+                size_left = limit_sides[1]
+                above_when_true = (size_left and isinstance(op, (ast.Gt, ast.GtE))) or (not size_left and isinstance(op, (ast.Lt, ast.LtE)))
+                verdict = 'above' if (lab == 'true') == above_when_true else 'within'
+            res_.append((lab, st.with_extra(size_checked=verdict) if verdict is not None else st))
+        return res_
 
     def on_call_attempt(self, node, t, state):
         if t.label in ('builtin:open', 'lib:io.open') or t.label.startswith('method:read'):
@@ -85,7 +105,10 @@ def run(ctx):
     ph = one(lambda m: m is not des and any(isinstance(n, ast.Attribute) and n.attr == 'ABOVE_LIMIT_CONTENT' for n in ast.walk(m.node)) and
              any(isinstance(n, ast.Return) and isinstance(n.value, ast.Dict) for n in ast.walk(m.node)), 'placeholder result')
     gp = one(lambda m: any(self_attr(n) == 'file_path_arg_name' for n in ast.walk(m.node)), 'path function')
-    calc = one(lambda m: has_call(m, 'getenv'), 'limit source')
+    calcs = [m for m in fi.methods.values() if has_call(m, 'getenv') or any(isinstance(n, ast.Attribute) and norm(n) == 'os.environ' for n in ast.walk(m.node))]
+    if len(calcs) != 1:
+        raise AnalysisError('anchor-lost role=limit source (candidates %s)' % [m.name for m in calcs])
+    calc = calcs[0]
     for nm, m in (('_intercept_file', icpt), ('size predicate', above), ('serialize', ser), ('deserialize', des), ('placeholder', ph), ('path', gp), ('limit', calc)):
         if m is None:
             raise AnalysisError('anchor-lost method role=%s' % nm)
@@ -113,9 +136,11 @@ def run(ctx):
             rv = dom.rv(s)
             if rv is None or not (isinstance(rv.name, tuple) and 'Dict@' in str(rv.name)):
                 pass
-    ret_ph = any(isinstance(n, ast.If) and any(isinstance(x, ast.Call) and self_attr(x.func) == above.name for x in ast.walk(n.test)) and
-                 any(isinstance(x, ast.Return) and isinstance(x.value, ast.Call) and self_attr(x.value.func) == ph.name for x in n.body)
-                 for n in walk_own(icpt.node))
+    # every return of the routine taken with the answer "above" hands back the placeholder envelope, none of them read the file
+    above_exits = [(n, s) for n, s in dom.exits if n.info['exit'] == 'return' and s.extra.get('size_checked') == 'above']
+    read_above = [x for x in dom.opens if x[2].extra.get('size_checked') == 'above']
+    ph_call = any(isinstance(x, ast.Call) and self_attr(x.func) == ph.name for x in ast.walk(icpt.node)) or ph is icpt
+    ret_ph = bool(above_exits) and not read_above and ph_call
     ca.instance('"above the limit" returns the placeholder result (%d states)' % seen_above, icpt.qualname, ret_ph and seen_above > 0)
     if not (ret_ph and seen_above > 0):
         res.add(Finding('C20', 'C20.a', 'R-DOM', icpt.file, icpt.qualname, icpt.node.lineno, 'above-limit branch',
@@ -144,8 +169,44 @@ def run(ctx):
         mbs = [m for m in fi.methods.values() if any(isinstance(n, ast.BinOp) and isinstance(n.op, ast.Div) and '1024' in norm(n.right) for n in ast.walk(m.node))]
     mb = mbs[0] if len(mbs) == 1 else None
     from ..loader import expand_locals as _xl
+    from .. import paths as _paths
     e = _xl(above.node, e) if e is not None else e
-    src = e.args[0] if mb is not None and isinstance(e, ast.Call) and self_attr(e.func) == mb.name and e.args else None
+    # the compared size written out: through the conversion helper if there is one, or in place
+    conv = None
+    if mb is not None and isinstance(e, ast.Call) and self_attr(e.func) == mb.name and e.args:
+        try:
+            tbl = _paths.return_paths(mb.node)
+        except _paths.Unsupported as ex:
+            raise AnalysisError('size conversion has a shape the path table does not model: %s' % ex)
+        mp = mb.params[-1] if mb.params else None
+        if len(tbl) == 1 and tbl[0].value is not None and not tbl[0].conds:
+            import copy as _copy
+
+            class _Sub(ast.NodeTransformer):
+                def visit_Name(self_, n):
+                    return _copy.deepcopy(e.args[0]) if n.id == mp else n
+            conv = _Sub().visit(_copy.deepcopy(tbl[0].value))
+        where_conv = mb
+    else:
+        conv = e
+        where_conv = above
+    if conv is None:
+        raise AnalysisError('anchor-lost role=size operand of the limit test')
+
+    def const_value(x):
+        try:
+            return eval(compile(ast.Expression(body=x), '<const>', 'eval'), {'__builtins__': {}}, {}) if not any(
+                isinstance(y, (ast.Name, ast.Call, ast.Attribute)) for y in ast.walk(x)) else None
+        except Exception:
+            return None
+    src = None
+    exact = False
+    if isinstance(conv, ast.BinOp) and isinstance(conv.op, ast.Div):
+        left = conv.left
+        if isinstance(left, ast.Call) and isinstance(left.func, ast.Name) and left.func.id == 'float' and len(left.args) == 1:
+            left = left.args[0]
+        src = left
+        exact = const_value(conv.right) == 1024 * 1024
     # the size measured is that of the content a read would return: getsize / stat follow symbolic links, lstat measures the link itself
     follows = src is not None and ((isinstance(src, ast.Call) and norm(src.func).endswith('getsize')) or
                                    (isinstance(src, ast.Attribute) and src.attr == 'st_size' and isinstance(src.value, ast.Call) and
@@ -156,34 +217,16 @@ def run(ctx):
         res.add(Finding('C20', 'C20.a', 'R-DOM', above.file, above.qualname, src.lineno, norm(src),
                         'the size compared with the limit is `%s`, the size of the directory entry: for a symbolic link that is the length of the link '
                         'text, so a file above the limit reached through a link is read into the recording' % norm(src)))
+    ca.instance('byte count converted to MB by an exact division (`%s`)' % norm(conv)[:80], where_conv.qualname, exact)
+    if not exact:
+        res.add(Finding('C20', 'C20.a', 'R-DOM', where_conv.file, where_conv.qualname, where_conv.node.lineno, 'size conversion',
+                        'the size handed to the limit test is `%s`, not the exact quotient of the byte count by 1024*1024: rounding / truncation / '
+                        'another unit lets a file slightly above the limit compare as within it (it is then read into the recording)' % norm(conv)[:100]))
     unit_ok = follows or link_size
-    conv_ok = mb is not None and any(isinstance(n, ast.BinOp) and isinstance(n.op, ast.Div) and '1024' in norm(n.right) for n in ast.walk(mb.node))
-    # the conversion is exact: a plain true division of the byte count (rounding / truncation would move files across the limit)
-    if mb is not None:
-        from .. import paths as _paths
-        try:
-            tbl = _paths.return_paths(mb.node)
-        except _paths.Unsupported as ex:
-            raise AnalysisError('size conversion has a shape the path table does not model: %s' % ex)
-        mp = mb.params[-1] if mb.params else None
-
-        def exact(v):
-            return isinstance(v, ast.BinOp) and isinstance(v.op, ast.Div) and \
-                (isinstance(v.left, ast.Name) and v.left.id == mp or
-                 (isinstance(v.left, ast.Call) and isinstance(v.left.func, ast.Name) and v.left.func.id == 'float' and len(v.left.args) == 1 and
-                  isinstance(v.left.args[0], ast.Name) and v.left.args[0].id == mp)) and \
-                not any(isinstance(x, (ast.Name, ast.Call)) for x in ast.walk(v.right))
-        inexact = [p for p in tbl if p.value is None or not exact(p.value)]
-        ca.instance('byte count converted by an exact division (%s)' % '; '.join(p.text() for p in tbl), mb.qualname, not inexact and bool(tbl))
-        if inexact or not tbl:
-            res.add(Finding('C20', 'C20.a', 'R-DOM', mb.file, mb.qualname, mb.node.lineno, 'size conversion',
-                            'the size handed to the limit test is `%s`, not the exact quotient of the byte count: rounding / truncation lets a file '
-                            'slightly above the limit compare as within it (it is then read into the recording)' % (
-                                inexact[0].text() if inexact else 'nothing')))
-    ca.instance('size converted from bytes to MB by one conversion before the comparison with the MB limit', above.qualname, unit_ok and conv_ok)
-    if not (unit_ok and conv_ok):
+    ca.instance('the compared size is the size of the content that would be read (os.path.getsize / stat)', above.qualname, unit_ok)
+    if not unit_ok:
         res.add(Finding('C20', 'C20.a', 'R-DOM', above.file, above.qualname, above.node.lineno, 'units of the size test',
-                        'the compared size is not os.path.getsize(path) converted to MB by the single conversion function'))
+                        'the compared size `%s` is not the size of the file content (os.path.getsize(path) / os.stat(path).st_size)' % norm(conv)[:100]))
     # sentinel
     bare = []
     for n in ast.walk(above.node):
@@ -420,8 +463,6 @@ def run(ctx):
 
     # ---------------- C20.e limit source
     # path table: the parameter itself exactly when it is not None; otherwise a value read from the environment with a default
-    pname = calc.params[0] if calc.params else None
-
     def is_p(e):
         return isinstance(e, ast.Name) and e.id == pname
 
@@ -429,9 +470,14 @@ def run(ctx):
         return any(isinstance(n, ast.Call) and norm(n.func) in ('os.getenv', 'os.environ.get') and len(n.args) == 2 for n in ast.walk(e)) and \
             not any(is_p(n) for n in ast.walk(e))
     try:
-        table = _paths.return_paths(calc.node)
+        # a separate function returning the limit, or the method that stores it (then the table is over the stored value)
+        stores = [n for n in walk_own(calc.node) if isinstance(n, ast.Assign) and len(n.targets) == 1 and
+                  self_attr(n.targets[0]) == 'intercepted_size_limit']
+        table = _paths.value_paths(calc.node, stores[0]) if stores else _paths.return_paths(calc.node)
     except _paths.Unsupported as ex:
         raise AnalysisError('limit source has a shape the path table does not model: %s' % ex)
+    cands = [q for q in calc.params if any(isinstance(p.value, ast.Name) and p.value.id == q for p in table)]
+    pname = cands[0] if len(cands) == 1 else (calc.params[0] if calc.params and not stores else None)
     oke = bool(table) and pname is not None
     seen_kinds = set()
     for p in table:
